@@ -108,7 +108,7 @@ PairRestq == {<<f>> : f \in PFuncsq}
 \* ---- "pair2": two functions, reduced menu
 Bodies2 == { <<"text", "new">>, <<"text", "buffer", "new">>, <<"text", "do">>, <<"text", "buffer", "do">>, <<"do">> }
 PFuncs2 == { Fn(<<"foo">> \o b, FALSE, p, rt, "-") : b \in Bodies2, p \in {NoRef, Cur(1), Cur(2)}, rt \in {NoRef, Cur(1), Cur(2)} }
-Pair2Stems == { Stem("pair2", PK, dump, tt \o <<f>>) : dump \in BOOLEAN, tt \in TypePairs, f \in PFuncs2 }
+Pair2Stems == { Stem("pair2", PK, dump, tt \o <<f>>) : dump \in BOOLEAN, tt \in TypePairsq, f \in PFuncs2 }
 Pair2Rest == {<<g>> : g \in PFuncs2}
 Pair2OK(s, x) == x[1].w # s.pre[3].w
 
